@@ -15,6 +15,8 @@ seeds = ["| seeded change | property | needs | caught by (quick unless stated) |
 for d in sorted((V / "seeded").glob("*/meta.json")):
     m = json.loads(d.read_text())
     caught = m.get("caught_by") or "**not caught**"
+    if m.get("note") and m.get("caught_by"):
+        caught += " *(added after the miss)*"
     seeds.append(f"| {d.parent.name} | {m['property']} | {m['needs_to_manifest']} | {caught} |")
 stab = "\n".join(seeds)
 p = V / "DESIGN.md"
